@@ -24,3 +24,21 @@ C("C06", "exploration",
   "attribute-assignment sequence x read mask on the four tracers and three path classes. Each execution is compared with the same "
   "history replayed on a fresh object without intermediate reads; plain FunctionSignals are also compared with an eager longhand-DFT model.",
   "in-place element writes and mutation of the ice object are outside the alphabet; exhaustive only up to the stated depth", "DESIGN.md §4 C06")
+C("C16", "exploration",
+  "exhaustive finite input lattice (model x depth x frequency x scalar/array shape) with algebraic self-consistency oracles",
+  "For 10 ice models (Antarctic, Arasim, Greenland, two custom exponential profiles, three UniformIce boundary-index settings, a 2- and a "
+  "3-layer LayeredIce) every depth of a lattice with one point per range case split (above, exactly on and 2^-20/2^-10 either side of each "
+  "bound and layer boundary, inside, below) x 7 frequencies straddling the 1 GHz coefficient switch x all 8 scalar/array shape combinations "
+  "is evaluated: scalar == array element, declared indices outside the range, monotone inside, logarithmic inverse with its conditioning "
+  "bound and clamping, gradient vs central difference, attenuation positive/finite, documented shapes, every matrix entry == scalar "
+  "evaluation, layered dispatch (lo, hi] with inclusive bottom.",
+  "finite lattice only; attenuation positivity demanded inside the valid range", "DESIGN.md §4 C16")
+C("C15", "exploration",
+  "exhaustive finite input lattice (radii per shell-edge case split; chords = depth x offset x nadir ladder x azimuth x |direction| x step) against an exact shell-split Gauss-Legendre chord integral",
+  "Both Earth models. Density: every shell boundary, +-1 ulp, +-1 m, midpoints, 0, negative, >= R, as scalars and as one array, against the "
+  "published piecewise polynomial. Slant depth: 6 endpoint depths (incl. above the surface) x 2 horizontal offsets x 22 nadir angles (vertical, "
+  "grazing 89.9/90/90.1, upward) x 5 azimuths x 2 direction norms x 2 (quick) / 4 (thorough) steps compared with the exact chord integral "
+  "within the first-order discretisation bound 110*h*(rho_exit/2 + sum of jumps crossed); zero for chords that miss; azimuth/norm invariance; "
+  "monotone in nadir angle; lattice-wide convergence with the step.",
+  "finite lattice; the bound is the derived first-order trapezoid error, so a defect smaller than it is by the property's own wording not a violation",
+  "DESIGN.md §4 C15")
